@@ -37,6 +37,7 @@ def step (s : St) (line : String) : St × String :=
       let (ks, rc) := s.keys.dealloc geo k
       ({ s with keys := ks }, s!"{rc}")
     | none => (s, "bad-op")
+  | ["reinit"] => ({ s with keys := Keys.init geo.nKeys }, "0")
   | ["exit", t] =>
     match t.toNat? with
     | some t =>
